@@ -320,27 +320,58 @@ def run(tier: str) -> int:
     twins = [(len(cases) + k, c[1], wneg, c[3], c[4], c[5], c[6]) for k, (c, wneg) in
              enumerate((c, wneg) for c in cases if c[2] == 0 for wneg in (-1, -7))]
     cases += twins
-    results = pmap(_observe, cases)
     traces, meta, alt = [], {}, {}
     tid = 0
-    for (cid, words, width, ic, so, md, mlines), (_, toks, obs) in zip(cases, results):
-        seen = {}
-        for a in obs:
-            chk.evaluations += 1
-            if "exc" in a:
-                chk.violation("NoException", dict(fn=a["fn"], exc=a["exc"], text=" ".join(toks), width=width, ic=ic, so=so))
-                continue
-            key = json.dumps([a["ok"], a["out"], a["linelen"], a["ind"]])
-            if key in seen:
-                meta[seen[key]]["fn"] += "," + a["fn"]
-                continue
-            tid += 1
-            seen[key] = tid
-            traces.append(_mk_trace(tid, words, width, ic, so, md, a))
-            meta[tid] = dict(fn=a["fn"], impl="wrap", text=" ".join(toks), width=width, ic=ic, so=so, md=md,
-                             output=a["raw"], model_lines=mlines)
-            if len(a["out"]) > 1 or any(t["e"] for l in a["out"] for t in l):
-                chk.nontriv(("w", cid, key))
+    sampled = []
+
+    def flush():
+        """leg C for what has been collected so far (keeps the memory of the thorough tier bounded)"""
+        if not traces:
+            return
+        reports, gen, dist = tlc.validate_traces("WrapTrace", traces, cfg=TRACE_CFG, timeout=1500)
+        chk.states += dist
+        chk.transitions += gen
+        chk.traces += len(traces)
+        for t in traces:
+            if t["id"] in meta:
+                judge(chk, reports[t["id"]], meta[t["id"]], reports.get(alt.get(t["id"])))
+            elif t["id"] in seg_meta:
+                m = seg_meta[t["id"]]
+                residual, _, _ = failures(chk, reports[t["id"]], m)
+                if m["mode"] == "sem" and t["width"] > 0:
+                    residual = [(c, j) for c, j in residual if c not in ("Bounded", "Maximal")]
+                if residual:
+                    chk.violation("+".join(sorted({c for c, _ in residual})), dict(m, failing=residual))
+        if len(sampled) < 5:
+            for t in [t for t in traces if t["id"] in meta][:: max(1, len(traces) // 5)][: 5 - len(sampled)]:
+                sampled.append({"trace": {k: t[k] for k in ("words", "width", "ic", "so", "md", "out")}, "fn": meta[t["id"]]["fn"], "text": meta[t["id"]]["text"]})
+        traces.clear()
+        meta.clear()
+        alt.clear()
+        seg_meta.clear()
+    seg_meta = {}
+    CH = 200000
+    for lo in range(0, len(cases), CH):
+        part = cases[lo: lo + CH]
+        for (cid, words, width, ic, so, md, mlines), (_, toks, obs) in zip(part, pmap(_observe, part)):
+            seen = {}
+            for a in obs:
+                chk.evaluations += 1
+                if "exc" in a:
+                    chk.violation("NoException", dict(fn=a["fn"], exc=a["exc"], text=" ".join(toks), width=width, ic=ic, so=so))
+                    continue
+                key = json.dumps([a["ok"], a["out"], a["linelen"], a["ind"]])
+                if key in seen:
+                    meta[seen[key]]["fn"] += "," + a["fn"]
+                    continue
+                tid += 1
+                seen[key] = tid
+                traces.append(_mk_trace(tid, words, width, ic, so, md, a))
+                meta[tid] = dict(fn=a["fn"], impl="wrap", text=" ".join(toks), width=width, ic=ic, so=so, md=md,
+                                 output=a["raw"], model_lines=mlines)
+                if len(a["out"]) > 1 or any(t["e"] for l in a["out"] for t in l):
+                    chk.nontriv(("w", cid, key))
+        flush()
     # ---- fill_text / plaintext family ----
     fcases = [(i, ls, w) for i, (ls, w) in enumerate(_fill_text_cases(tier))]
     for cid, words, width, toks, obs in pmap(_observe_fill, fcases):
@@ -401,7 +432,6 @@ def run(tier: str) -> int:
         raise tlc.TlcError(f"vacuous: containers without recorded paragraph: "
                            f"{sorted(set(c[0] for c in CONTAINERS) - got_containers)}")
     # ---- hard-break / tag-delimited segments: each segment is wrapped on its own (one WrapTrace trace per segment) ----
-    seg_meta = {}
     for case, text, src, obs in pmap(_observe_segs, _seg_cases(tier), chunksize=50):
         cid, kind, segs, seps, cname, first, cont, width = case
         for o in obs:
@@ -459,24 +489,10 @@ def run(tier: str) -> int:
             chk.violation("+".join(sorted({c for c, _ in residual})), dict(smeta, failing=residual))
         if smeta["nlines"] > 1:
             chk.nontriv(("s", json.dumps([t["words"], t["width"], t["minlen"], t["ii"], t["si"], t["md"]])))
-    # ---- leg C ----
-    reports, gen, dist = tlc.validate_traces("WrapTrace", traces, cfg=TRACE_CFG, timeout=1500)
-    chk.states += dist
-    chk.transitions += gen
-    chk.traces += len(traces)
-    for t in traces:
-        if t["id"] in meta:
-            judge(chk, reports[t["id"]], meta[t["id"]], reports.get(alt.get(t["id"])))
-        elif t["id"] in seg_meta:
-            m = seg_meta[t["id"]]
-            residual, _, _ = failures(chk, reports[t["id"]], m)
-            if m["mode"] == "sem" and t["width"] > 0:
-                residual = [(c, j) for c, j in residual if c not in ("Bounded", "Maximal")]
-            if residual:
-                chk.violation("+".join(sorted({c for c, _ in residual})), dict(m, failing=residual))
-    for t in [t for t in traces if t["id"] in meta][:: max(1, len(traces) // 5)][:5]:
-        chk.sample({"trace": {k: t[k] for k in ("words", "width", "ic", "so", "md", "out")}, "fn": meta[t["id"]]["fn"],
-                    "text": meta[t["id"]]["text"]})
+    # ---- leg C (remaining families) ----
+    flush()
+    for smp in sampled:
+        chk.sample(smp)
     chk.exhaustive = True
     chk.explanation = (f"TLC explored every behaviour of Wrap.tla for constants {sorted((k, sorted(v) if isinstance(v, set) else v) for k, v in consts.items())}; "
                        "each was replayed into the real functions and the observations validated by WrapTrace.tla")
